@@ -30,6 +30,8 @@ THEOREMS = [
     (NS + "C13_clientHello_roundtrip", "full"),
     (NS + "C13_serverHello_roundtrip", "full"),
 ]
+# secondary tie (DESIGN 4.2): kernels regenerated from the source on every run, proved equal to the model (Props/Equiv<Group>.lean)
+EQUIV = {"Serial": ["Mpgs.Equiv.gen_serialize_int"]}
 ASSUMPTIONS = [
     "float32 rounding of struct.pack('>f') is modelled on bit patterns (roundF32) and compared with struct on every run; "
     "NaN payloads are not distinguished (all NaNs print alike)",
